@@ -11,6 +11,7 @@ import (
 	"context"
 	"fmt"
 	"os"
+	"sort"
 	"strings"
 	"sync"
 	"time"
@@ -59,6 +60,7 @@ type Replay struct {
 	Limit  int        `json:"limit,omitempty"`
 	Ops    []Op       `json:"ops,omitempty"`
 	What   string     `json:"what,omitempty"` // tail | head | inverse | witness...
+	Follow bool       `json:"follow,omitempty"` // the request is followed by its continuation request (a request from the position it returned)
 }
 
 const finiteTimeout = 60 * time.Second
@@ -76,6 +78,8 @@ type store struct {
 	poisoned bool
 	fwd      map[string][]Item // forward read by variant+order
 	sorted   bool              // every partition stored in time order
+	follow   bool              // the next request is followed by its continuation request
+	extra    []Case            // cases a request produced besides its own (the continuation request)
 }
 
 var leaked struct {
@@ -423,8 +427,14 @@ func (st *store) runQuery(v Variant, what, pos string, offset, limit int, risky 
 	default: // tail, positive offset
 		want = nil
 	}
+	full := want // what the request would return without the page limit
 	if len(want) > limit {
 		want = want[:limit]
+	}
+	if sameItems(r.items, want) && !risky && st.follow {
+		if err := st.runContinuation(v, what, pos, offset, limit, r, full[len(want):]); err != nil {
+			return cs, err
+		}
 	}
 	if !sameItems(r.items, want) {
 		// does the unfiltered read of the same tree start with an event the filter rejects?
@@ -438,6 +448,63 @@ func (st *store) runQuery(v Variant, what, pos string, offset, limit int, risky 
 			st.selectAll(v), pos, offset, limit, len(st.parts), fmtItems(r.items), fmtItems(want), fmtItems(f))}
 	}
 	return cs, nil
+}
+
+// runContinuation: the position an answer carries must denote the first event the request did not deliver: a new request
+// from that position (offset 0) returns, partition by partition, exactly the events the first request would have
+// returned behind its page (rest: in the order of the first cursor's tree; the second cursor may order ties differently,
+// so the comparison is per partition).
+func (st *store) runContinuation(v Variant, what, pos string, offset, limit int, r qout, rest []Item) error {
+	r2 := st.doQuery(v, r.pos, 0, 10000, finiteTimeout)
+	rp := &Replay{Kind: "query", Parts: st.parts, V: v, Pos: pos, Offset: offset, Limit: limit, What: what, Follow: true}
+	cs := Case{Replay: rp, Stream: "continuation", Tags: []string{"continuation:" + what, "variant:" + v.String(), fmt.Sprintf("parts:%d", len(st.parts))}}
+	if r2.hang {
+		cs.Oracle = &Violation{Class: "c16-continuation-hang", Detail: fmt.Sprintf("%s POSITION %q did not return", st.selectAll(v), r.pos)}
+		cs.Coq = GApp("KQuery", "[]", "None", "PHead", GZ(0), GNat(0), "QHang")
+		st.extra = append(st.extra, cs)
+		return nil
+	}
+	if r2.err != nil {
+		return fmt.Errorf("continuation query failed: %v", r2.err)
+	}
+	srcs, err := st.srcs(r2.order, v)
+	if err != nil {
+		return err
+	}
+	at, err := gPositions(st, r.pos, r2.order)
+	if err != nil {
+		return err
+	}
+	ps2, err := gPositions(st, r2.pos, r2.order)
+	if err != nil {
+		return err
+	}
+	cs.Coq = GApp("KQuery", gSrcs(srcs), gFlt(st.flt(v)), GApp("PAt", at), GZ(0), GNat(10000), GApp("QOk", gItems(r2.items), ps2))
+	cs.NonTrivial = len(st.parts) > 1 || len(st.lay[0].Chunks) > 1
+	per := func(l []Item) map[int][]Item {
+		m := map[int][]Item{}
+		for _, x := range l {
+			m[x.Src] = append(m[x.Src], x)
+		}
+		return m
+	}
+	a, b := per(rest), per(r2.items)
+	ok := len(rest) == len(r2.items)
+	for i := range st.parts {
+		ok = ok && sameItems(a[i], b[i])
+	}
+	if !ok {
+		class := "c16-continuation-position"
+		if !v.ranged() && offset < 0 && len(r.items) == 0 {
+			// the journal iterator of the dependency (queries without RANGE) reports, after a backward change of chunks and
+			// before any Next, the position "end of the chunk" while it stands on the chunk's last record
+			class = "c16-backward-chunk-edge-position:dependency-jiterator"
+		}
+		cs.Oracle = &Violation{Class: class, Detail: fmt.Sprintf("%s POSITION %s OFFSET %d LIMIT %d over %d partitions returned [%s] and the position %q; a request from that position returns [%s], expected the events behind the page: [%s]",
+			st.selectAll(v), pos, offset, limit, len(st.parts), fmtItems(r.items), r.pos, fmtItems(r2.items), fmtItems(rest))}
+	}
+	st.extra = append(st.extra, cs)
+	return nil
 }
 
 func crossesChunk(l PartLayout, pos string, k int) bool {
@@ -486,6 +553,12 @@ func (st *store) runScript(v Variant, what string, ops []Op, risky bool) (Case, 
 				obs = append(obs, "RUnit")
 			case "release":
 				cur.Release()
+				obs = append(obs, "RUnit")
+			case "bk":
+				cur.SetBackward(true)
+				obs = append(obs, "RUnit")
+			case "fw":
+				cur.SetBackward(false)
 				obs = append(obs, "RUnit")
 			case "offset":
 				cur.Offset(ctx, o.N)
@@ -566,9 +639,14 @@ func genParts(r *Rng, np, kind int) []PartSpec {
 			case 1: // ties within and across partitions
 				cur += int64(r.Intn(2))
 				ts[k] = cur
+			case 3: // the ends of the int64 axis and the neighbourhood of the former model.MinTimestamp, time ordered (sorted below)
+				ts[k] = extremeTs[r.Intn(len(extremeTs))]
 			default: // not time ordered
 				ts[k] = 1000 + int64(r.Intn(12))
 			}
+		}
+		if kind == 3 {
+			sort.Slice(ts, func(a, b int) bool { return ts[a] < ts[b] })
 		}
 		var chunks [][]Ev
 		var cc []Ev
@@ -648,8 +726,15 @@ func chunkGap(r *Rng, parts []PartSpec) (int64, bool) {
 	return mx, true
 }
 
+// extremeTs: timestamps a WHERE filter without RANGE must let through (its default range is the whole int64 axis)
+var extremeTs = []int64{-9223372036854775808, -9223372036854775807, -6795364578871345153, -6795364578871345152, -6795364578871345151, -1, 0, 1, 9223372036854775806, 9223372036854775807}
+
 func genVariants(r *Rng, parts []PartSpec) []Variant {
 	lo, hi := tsBounds(parts)
+	if lo < -(1<<61) || hi > 1<<61 {
+		// stores over the whole int64 axis: plain and WHERE (whose default range must not drop anything); no RANGE
+		return []Variant{{}, {Where: true}}
+	}
 	rng := func() *[2]int64 {
 		a := lo + int64(r.Intn(int(hi-lo)/2+1)) - 1
 		b := hi - int64(r.Intn(int(hi-lo)/2+1)) + 1
@@ -766,9 +851,12 @@ func sweepStore(r *Rng, parts []PartSpec, vs []Variant, full bool) ([]Case, erro
 				if r.Chance(1, 6) {
 					limit = r.Range(0, 3)
 				}
+				st.follow = limit <= 3 || r.Chance(1, 4)
 				if err := add(st.runQuery(v, q.what, q.pos, q.off, limit, risky)); err != nil {
 					return out, err
 				}
+				out = append(out, st.extra...)
+				st.extra = nil
 				if err := reopen(); err != nil {
 					return out, err
 				}
@@ -787,6 +875,36 @@ func sweepStore(r *Rng, parts []PartSpec, vs []Variant, full bool) ([]Case, erro
 			}
 			ops := []Op{{K: "offset", N: j}, {K: "get"}, {K: "offset", N: k}, {K: "get"}, {K: "offset", N: -k}, {K: "get"}, {K: "pos"}}
 			if err := add(st.runScript(v, "inverse", ops, risky)); err != nil {
+				return out, err
+			}
+			if err := reopen(); err != nil {
+				return out, err
+			}
+		}
+		// random scripts on a real cursor over the stored journals (correspondence only): Get / Next / Release / SetBackward
+		// (also to the direction it already has) / Offset / CurrentPos in any order
+		for t := 0; t < 4 && !hangBudget.exhausted(); t++ {
+			var ops []Op
+			for k, ln := 0, r.Range(6, 18); k < ln; k++ {
+				switch y := r.Intn(100); {
+				case y < 28:
+					ops = append(ops, Op{K: "get"})
+				case y < 50:
+					ops = append(ops, Op{K: "next"})
+				case y < 58:
+					ops = append(ops, Op{K: "release"})
+				case y < 68:
+					ops = append(ops, Op{K: "bk"})
+				case y < 78:
+					ops = append(ops, Op{K: "fw"})
+				case y < 90:
+					ops = append(ops, Op{K: "pos"})
+				default:
+					ops = append(ops, Op{K: "offset", N: r.Range(-4, 4)})
+				}
+			}
+			ops = append(ops, Op{K: "get"}, Op{K: "pos"})
+			if err := add(st.runScript(v, "random", ops, true)); err != nil {
 				return out, err
 			}
 			if err := reopen(); err != nil {
@@ -820,12 +938,16 @@ func run(c *Ctx) error {
 		if rp.Kind == "script" {
 			cs, err = st.runScript(rp.V, rp.What, rp.Ops, true)
 		} else {
+			st.follow = rp.Follow
 			cs, err = st.runQuery(rp.V, rp.What, rp.Pos, rp.Offset, rp.Limit, true)
 		}
 		if err != nil {
 			return err
 		}
 		c.Add(cs)
+		for _, x := range st.extra {
+			c.Add(x)
+		}
 		return c.Finish(rule)
 	}
 	hangBudget.hangs = 3
@@ -863,6 +985,25 @@ func run(c *Ctx) error {
 		}
 		addCase(c, cs)
 	}
+	// the position an answer carries (C16_position_after_backward_refuted, recorded for the iterator of the dependency;
+	// C16_position_ranged): one partition [1,2,3], tail OFFSET -1 LIMIT 0, then the request from the returned position
+	for _, v := range []Variant{{}, {Range: &[2]int64{0, 100}}} {
+		st, err := openStore(headWitnessParts())
+		if err != nil {
+			return err
+		}
+		st.follow = true
+		cs, err := st.runQuery(v, "witness", "tail", -1, 0, false)
+		extra := st.extra
+		st.close()
+		if err != nil {
+			return err
+		}
+		addCase(c, cs)
+		for _, x := range extra {
+			addCase(c, x)
+		}
+	}
 
 	// ---- sweeps
 	type job struct {
@@ -875,7 +1016,7 @@ func run(c *Ctx) error {
 	ns := c.N(14)
 	for i := 0; i < ns; i++ {
 		np := c.Rng.PickInt(1, 1, 2, 2, 3)
-		kind := c.Rng.PickInt(0, 0, 1, 1, 2)
+		kind := c.Rng.PickInt(0, 0, 1, 1, 2, 3)
 		parts := genParts(c.Rng, np, kind)
 		jobs = append(jobs, job{parts, genVariants(c.Rng, parts), i < 4, c.Rng.Fork()})
 	}
